@@ -236,6 +236,76 @@ def e4(run: Run, prog: Program):
     run.floor("E4 statements analysed", n, 40)
 
 
+def e6(run: Run, prog: Program):
+    """make_event_matrix compares the data with per-variable thresholds
+    (quantiles or given values, i.e. real numbers).  The array that holds them
+    must be floating whatever the dtype of the data: allocating it "like the
+    data" (zeros_like(data...), dtype=data.dtype) truncates the thresholds for
+    integer-valued data and marks the wrong samples."""
+    es = prog.classes.get("EventSeries")
+    m = es.methods.get("make_event_matrix") if es else None
+    if m is None:
+        raise AnalysisError("EventSeries.make_event_matrix vanished")
+    data = m.params[0] if m.kind == "static" else m.params[1]
+    # locals derived from the data array
+    derived = {data}
+    changed = True
+    while changed:
+        changed = False
+        for a in ast.walk(m.node):
+            if isinstance(a, ast.Assign) and isinstance(a.targets[0], ast.Name) and \
+                    a.targets[0].id not in derived and any(
+                        isinstance(x, ast.Name) and x.id in derived
+                        for x in ast.walk(a.value)) and not any(
+                        isinstance(c, ast.Call) and ast.unparse(c.func).split(".")[-1]
+                        in ("quantile", "percentile", "shape", "len")
+                        for c in ast.walk(a.value)):
+                derived.add(a.targets[0].id)
+                changed = True
+    # arrays that receive quantiles / threshold values by item assignment
+    recv = set()
+    for a in ast.walk(m.node):
+        if isinstance(a, ast.Assign) and isinstance(a.targets[0], ast.Subscript) and \
+                isinstance(a.targets[0].value, ast.Name) and any(
+                    (isinstance(c, ast.Call) and ast.unparse(c.func).split(".")[-1]
+                     in ("quantile", "percentile", "nanquantile"))
+                    or (isinstance(c, ast.Name) and "threshold" in c.id and
+                        c.id in m.params) for c in ast.walk(a.value)):
+            recv.add(a.targets[0].value.id)
+    n = 0
+    for a in ast.walk(m.node):
+        if not (isinstance(a, ast.Assign) and isinstance(a.targets[0], ast.Name)
+                and a.targets[0].id in recv and isinstance(a.value, ast.Call)):
+            continue
+        fn = ast.unparse(a.value.func).split(".")[-1]
+        if fn not in ("zeros", "empty", "ones", "full", "zeros_like", "empty_like",
+                      "ones_like", "full_like"):
+            continue
+        n += 1
+        dt = next((k.value for k in a.value.keywords if k.arg == "dtype"), None)
+        why = None
+        if fn.endswith("_like") and dt is None and any(
+                isinstance(x, ast.Name) and x.id in derived for x in ast.walk(a.value.args[0])):
+            why = f"`{ast.unparse(a.value)}` inherits the dtype of the data"
+        elif dt is not None:
+            d = ast.unparse(dt)
+            if any(isinstance(x, ast.Name) and x.id in derived for x in ast.walk(dt)):
+                why = f"dtype `{d}` is taken from the data"
+            elif isinstance(dt, ast.Constant) and "int" in str(dt.value) or \
+                    d.split(".")[-1].startswith(("int", "uint", "bool")):
+                why = f"dtype `{d}` is not floating"
+        run.oblige("E6", f"make_event_matrix:{a.targets[0].id}", why is None, sample={
+            "where": f"{m.module.relpath}:{a.lineno}", "allocation": ast.unparse(a.value)})
+        if why:
+            run.add("E6", f"EventSeries.make_event_matrix/threshold-dtype/{a.targets[0].id}",
+                    f"{m.module.relpath}:{a.lineno}",
+                    f"make_event_matrix stores the (real-valued) thresholds in "
+                    f"`{a.targets[0].id}`, but {why}: for integer-valued data the "
+                    f"quantile or threshold is truncated and the wrong samples are "
+                    f"marked as events")
+    run.floor("E6 threshold arrays", n, 1)
+
+
 NARROW_INT = ("int8", "int16", "uint8", "uint16", "i1", "i2", "u1", "u2")
 POSITION_SOURCES = ("where", "nonzero", "flatnonzero", "argwhere", "arange")
 
@@ -278,6 +348,8 @@ def e5(run: Run, prog: Program):
 
 
 def check(run: Run, prog: Program):
+    run.rule("E6", "the per-variable threshold array of make_event_matrix is floating "
+             "whatever the dtype of the data")
     run.rule("E5", "event positions are not narrowed below 32-bit integers")
     run.rule("E4", "the pairwise ES/ECA kernels are exchange consistent: swapping the "
              "roles of the two sequences maps every statement onto a statement of the "
@@ -298,6 +370,7 @@ def check(run: Run, prog: Program):
     e2(run, prog)
     e4(run, prog)
     e5(run, prog)
+    e6(run, prog)
     from .rules_c06 import p1_restricted
     p1_restricted(run, "E3", prog, lambda o: o.startswith("cached:EventSeries."),
                   "memoised event-synchronisation matrix", floor=1)
